@@ -37,12 +37,16 @@
   the number of arguments is one the model accepts.  Every other use of the library `std`
   is `LowerErr.unsupported`.  A rebound `std` is an ordinary variable.
 
-  Payloads (identifiers, strings, numbers) are opaque hex text in `Rsj.Parser.Expr`; a payload
-  that is not in that notation is the explicit outcome `LowerErr.badPayload` (the pipeline only
-  builds payloads with `hexEnc`, see RsjModel/Pipeline.lean).  A comprehension whose clauses do not
-  start with `for` (which `maybe_parse_comp_spec` never builds) is `LowerErr.malformed`: with these
-  two guards every lowered program has the shape `CoreShaped` that the evaluator's no-panic theorem
-  assumes (RsjProofs/LowerShape.lean).
+  Payloads.  `Rsj.Parser.Expr` carries the payloads of identifier / string / text-block / number
+  tokens as opaque strings.  The pipeline (`Rsj.Pipeline.convKind`) writes them so that reading them
+  back is a TOTAL function: identifiers, strings and text blocks are the text itself (`decStr` is the
+  identity), a number is the decimal numeral of the bit pattern `numBits digits exp` of its double
+  (`decNum` reads a numeral, digit by digit).  So the lowering has no decoding failure
+  (`LowerErr.badPayload` is kept as a constructor but no function produces it:
+  RsjProofs/LowerNoMalformed.lean: on parser output the only error is `unsupported`).  A comprehension whose clauses do not start with `for` (which
+  `maybe_parse_comp_spec` never builds) is `LowerErr.malformed` (unreachable on parser output,
+  RsjProofs/LowerNoMalformed.lean): with this guard every lowered program has the shape `CoreShaped`
+  that the evaluator's no-panic theorem assumes (RsjProofs/LowerShape.lean).
 -/
 import RsjModel.Ast
 import RsjModel.Core
@@ -52,7 +56,8 @@ namespace Rsj.Lower
 inductive LowerErr where
   /-- the evaluator model does not cover this use of the standard library -/
   | unsupported (msg : String)
-  /-- a token payload that is not `hexEnc` text / `<hexdigits>_<exp>` -/
+  /-- (no longer produced: payload decoding is total; kept so that the answer classification of the
+      pipeline and the proofs about it keep their shape) -/
   | badPayload (what : String)
   /-- a tree the parser cannot produce (`maybe_parse_comp_spec` starts every comprehension with a `for`
       clause; analyze.rs relies on it without a check) -/
@@ -63,29 +68,23 @@ abbrev R := Except LowerErr
 
 /-! ### Payloads -/
 
-def decStr (h : String) : R String :=
-  match Core.hexStr h with
-  | some s => .ok s
-  | none => .error (.badPayload h)
-
-/-- bytes of `std` -/
-def stdBytes : List Nat := [115, 116, 100]
+/-- identifier / string / text-block payload ↦ the text: the payload IS the text -/
+def decStr (s : String) : R String := .ok s
 
 /-- the identifier is spelled `std` -/
-def isStd (i : Parser.Ident) : Bool := hexDecode i.value == some stdBytes
+def isStd (i : Parser.Ident) : Bool := i.value == "std"
 
-/-- magnitude bit pattern of the double denoted by `digits · 10^exp` (ASCII digits) -/
+/-- magnitude bit pattern of the double denoted by `digits · 10^exp` (ASCII digits); this is what
+    `Rsj.Pipeline.convKind` writes, as a decimal numeral, into the payload of a number token -/
 def numBits (digits : List Nat) (exp : Int) : Nat :=
   Dec.roundDec (Dec.ofDigits (digits.map (· - 48))) exp
 
-/-- `N<hexdigits>_<exp>` payload ↦ the double (`ast::ExprKind::Number` in analyze.rs) -/
-def decNum (p : String) : R Float :=
-  match p.splitOn "_" with
-  | [d, x] =>
-    match hexDecode d, x.toInt? with
-    | some ds, some e => .ok (Float.ofBits (UInt64.ofNat (numBits ds e)))
-    | _, _ => .error (.badPayload p)
-  | _ => .error (.badPayload p)
+/-- the number a decimal numeral denotes (total: every character is read as `code - 48`) -/
+def readNat (p : String) : Nat := Dec.ofDigits (Dec.digitsOf p.toList)
+
+/-- number payload (decimal numeral of the bit pattern) ↦ the double (`ast::ExprKind::Number` in
+    analyze.rs) -/
+def decNum (p : String) : R Float := .ok (Float.ofBits (UInt64.ofNat (readNat p)))
 
 /-! ### Operators -/
 
@@ -129,7 +128,7 @@ def builtinArityOk (b : Core.Builtin) (n : Nat) : Bool :=
   | .objectHasEx | .foldl | .foldr | .filterMap => n == 3
   | .pure p => n == Core.pureArity p
 
-/-- the callee is `std.<name>` (identifier `std`, then a field): the hex payload of `<name>` -/
+/-- the callee is `std.<name>` (identifier `std`, then a field): the payload of `<name>` -/
 def stdCallee : Parser.Expr → Option String
   | .field (.ident id _) name _ => if isStd id then some name.value else none
   | _ => none
@@ -163,10 +162,7 @@ def builtinOf (nameHex : String) (args : List Parser.Arg) (ts : Bool) : R Core.B
 `libs` maps an import path to the variable of the root environment that the evaluator model binds
 the library to (`Rsj.Eval.runHistory`); `lower` uses the empty map. -/
 
-def libVar (libs : List (String × String)) (pathHex : String) : Option String :=
-  match Core.hexStr pathHex with
-  | some p => libs.lookup p
-  | none => none
+def libVar (libs : List (String × String)) (path : String) : Option String := libs.lookup path
 
 /-- the operand of `import` (kind 0) / `importstr` (1) / `importbin` (2) decides the IR node: a string
     literal or a text block (`none`: any other expression, a computed path) -/
